@@ -1,7 +1,10 @@
 import TbbVerif.Core.Proto
+import TbbVerif.Model.C10
 
 open TbbVerif
 
-def drivers : List (String × Proto.Driver) := []
+def drivers : List (String × Proto.Driver) := [
+  ("c10", C10.driver)
+]
 
 def main (args : List String) : IO UInt32 := Proto.mainOf drivers args
